@@ -47,13 +47,17 @@ func HarnessC37() {
 	r := &Report{}
 	tags := []string{"", "t1"}
 	for i := 0; i < nd; i++ {
-		d := Diagnostic{message: "msg", tag: tags[zz.Choice(2)], level: Level(1 + zz.Choice(4))}
+		d := Diagnostic{message: "msg", tag: tags[zz.Choice(2)], level: Level(1 + zz.Choice(4 - 2*(nd-1)))}
 		if zz.Bool() {
 			d.notes = []string{"note"}
 			d.help = []string{"help1", "help2"}
 			d.debug = []string{"dbg"}
 		}
-		na := zz.IntRange(0, 2)
+		maxA := 2
+		if nd == 2 {
+			maxA = 1 // (two diagnostics: at most one annotation each, to keep the product in reach)
+		}
+		na := zz.IntRange(0, maxA)
 		if na == 0 {
 			d.inFile = "c.proto"
 		}
